@@ -345,10 +345,11 @@ def register(reg):
 
     # with witnesses, every id up to a used id is used (the exists-form of density, for callers that know no witness)
     reg.lemma("dense_exists", dict(r=Arr(Int), n=Int, mx=Int, wit=Arr(Int)),
-              "implies(exists(lambda j: r[j] >= b, 0, n), exists(lambda j: r[j] == b and j == wit[b], 0, n))",
+              "implies(exists(lambda j: r[j] >= b, 0, n), exists(lambda j: r[j] == b, 0, n))",
               intro={"b": ("0", "n")}, props=["C08", "C03", "C04", "C09"],
               requires={"range": "forall(lambda j: 0 <= r[j] and r[j] <= mx, 0, n)",
-                        "wit": "forall(lambda b2: 0 <= wit[b2] and wit[b2] < n and r[wit[b2]] == b2, 0, mx + 1)"})
+                        "wit": "forall(lambda b2: 0 <= wit[b2] and wit[b2] < n and r[wit[b2]] == b2, 0, mx + 1)"},
+              hints=["implies(0 <= b and b <= mx, 0 <= wit[b] and wit[b] < n and r[wit[b]] == b)"])
     reg.lemma("nl_bound", dict(n=Int, t=Int), "n * t <= n * (n - 1) and n * t >= 0", props=["C08", "C09", "C04"],
               requires={"t": "0 <= t < n"})
     reg.lemma("CH_own_zero", dict(r=Arr(Int), c=Arr(Real), t=Int, B=Int, n=Int, m=Int), "CH(r, c, t, B, n, m, B) == 0",
@@ -528,6 +529,7 @@ def register(reg):
                   "mirror": "forall(lambda t, a: MIRP(cost_matrix_1d, n, t, a), 0, n, 0, n)"},
         ghost=dict(maxbs=Arr(Int), wits=Arr(Int, 2)),
         call_ghost={("_improve_one_ranking", "maxb0"): "maxbs[i]", ("_improve_one_ranking", "wit0"): "wits[i]"},
+        needed_by={"rows_dense": ["hint(ROWDENSE"]},      # non-linear offsets i*n: only the hint that instantiates it
         modifies=["departure_rankings", "dst_min"],
         ensures={
             "range": "forall(lambda p: 0 <= departure_rankings[p] <= n - 1, 0, len(departure_rankings))",
@@ -756,7 +758,7 @@ def register_pairsum_lemmas(reg):
               props=PL, induction="m", base="0",
               requires=dict(SAME, a="0 <= a and a < n and a != t", t="0 <= t and t < n", m="m <= n",
                             mir="MIRP(c, n, t, a)"),
-              hints=["SAMEREL(q, r, t, a, m) or True"])
+              hints=["SAMEREL(q, r, t, a, m) or True"], prefer="cvc5")
     reg.spec("def DQT(q, r, c, t, n, m):\n    return 0.0 if m <= t + 1 else DQT(q, r, c, t, n, m - 1) + dq(q, r, c, t, n, m - 1)",
              dict(Q, m=Int), Real)
     reg.spec("def DQL(q, r, c, t, n, k):\n    return 0.0 if k <= 0 else DQL(q, r, c, t, n, k - 1) + dq(q, r, c, t, n, k - 1)",
@@ -767,7 +769,7 @@ def register_pairsum_lemmas(reg):
               "SC(q, 0, c, n, m) - SC(r, 0, c, n, m) == DQL(q, r, c, t, n, ite(m < t, m, t)) + ite(t < m, DQT(q, r, c, t, n, n), 0.0)",
               props=PL, induction="m", base="0",
               requires=dict(SAME, t="0 <= t and t < n", m="m <= n", mir="forall(lambda a: MIRP(c, n, t, a), 0, n)"),
-              hints=["implies(m != t, ps_row_other(q, r, c, t, n, m, n))", "ps_row_t(q, r, c, t, n, n)"])
+              hints=["implies(m != t, ps_row_other(q, r, c, t, n, m, n))", "ps_row_t(q, r, c, t, n, n)"], prefer="cvc5")
     reg.spec("def DQS(q, r, c, t, n, m):\n    return 0.0 if m <= 0 else DQS(q, r, c, t, n, m - 1) + dq(q, r, c, t, n, m - 1)",
              dict(Q, m=Int), Real)
     reg.lemma("ps_split", dict(Q, m=Int),
